@@ -104,7 +104,7 @@ def c02_transition(ctx: Ctx) -> List[Violation]:
             if vid not in ctx.pre.vehicles or sname(ctx.pre.vehicles[vid]) != sname(v)
         }
     )
-    return [Violation("C02", c, d + (",".join(changed),), m) for c, d, m in bad]
+    return [Violation("C02", c, d, m + f" (activity changes in this step: {', '.join(changed) or 'none'})") for c, d, m in bad]
 
 
 def c02_initial(world, sim) -> List[Violation]:
